@@ -458,6 +458,30 @@ fn int_literal(rng: &mut Rng) -> LitCase {
 fn float_literal(rng: &mut Rng) -> LitCase {
     let f32ty = rng.bool();
     let ty = if f32ty { "f32" } else { "f64" };
+    if rng.chance(1, 8) {
+        // digits and a float suffix only (`10f32`): 1-25 digits, so that the magnitude also lies
+        // around and above 2^63 and 2^64 (the value is a float of the suffix' type whatever the
+        // size of the digit string)
+        let n = 1 + rng.usize(25);
+        let mut digits: String = (0..n).map(|i| char::from(b'0' + if i == 0 { 1 + rng.below(9) as u8 } else { rng.below(10) as u8 })).collect();
+        if rng.chance(1, 4) {
+            digits = ["9223372036854775807", "9223372036854775808", "18446744073709551615", "18446744073709551616"][rng.usize(4)].to_string();
+        }
+        let mut spelling = digits_with_underscores(rng, &digits);
+        while spelling.ends_with('_') {
+            spelling.pop();
+        }
+        spelling.push_str(ty);
+        let v64: f64 = digits.parse().unwrap_or(f64::NAN);
+        let v32: f32 = digits.parse().unwrap_or(f32::NAN);
+        return LitCase {
+            class: "float:digits+suffix",
+            ty: ty.to_string(),
+            src: format!("fn main() -> {ty} {{\n    {spelling}\n}}\n"),
+            expect: if f32ty { Expect::F32(v32, v64 as f32) } else { Expect::F64(v64) },
+            spelling,
+        };
+    }
     let int_part = match rng.below(4) {
         0 => "0".to_string(),
         1 => format!("{}", rng.below(10)),
